@@ -578,6 +578,18 @@ func acceptNum(x interface{}) float64 {
 	return 0
 }
 
+// SWAPMIX control: the output scale pairs the original first operand with the swapped second name
+func (e fixEvaluator) MulSwap(op0, op1, opOut *rlwe.Ciphertext) {
+	var t0, t1 *rlwe.Ciphertext
+	if op1 == opOut {
+		t0, t1 = op1, op0
+	} else {
+		t0, t1 = op0, op1
+	}
+	e.r.MulCoeffsMontgomery(t0.Value[0], t1.Value[0], opOut.Value[0])
+	opOut.Scale = op0.Scale.Mul(t1.Scale)
+}
+
 func rnsBad(r *ring.Ring, v uint64) (rns ring.RNSScalar) {
 	rns = make(ring.RNSScalar, r.Level()+1)
 	for i := range rns {
